@@ -40,8 +40,6 @@ def run(ctx):
     rep = os.path.join(ctx.scratch, 'c08_report.json')
     ctx.run_driver(drv, [trace, rep], timeout=2400)
     report = vf.read_json(rep)
-    if report.get('notes'):
-        raise vf.Inconclusive('relay driver: %s' % report['notes'][:3])
     plans = {p['id']: p for p in report['plans']}
     lines = open(trace).read().splitlines()
     parts = split(lines)
@@ -79,6 +77,9 @@ def run(ctx):
         ctx.violation({'check': 'C08', 'kind': kind, 'conn_class': cls, 'proto': (plan or {}).get('proto')},
                       'relay scenario (%s connection): first unexplained event %s; plan %s' % (cls, e, plan), {'events': events[:200], 'plan': plan})
         start = k + 1
+    if report.get('notes') and not ctx.violations:
+        # a client-side I/O error that the recorded events do not explain: no verdict
+        raise vf.Inconclusive('relay driver: %s' % report['notes'][:3])
     nreq = len(plans)
     cov = {'traces_validated_against_impl': n + accepted, 'samples': samples[:3] + [{'relay_trace_prefix': [json.loads(x) for x in lines[:12]]}],
            'rewrite_scenarios_replayed': n, 'relay_scenarios_accepted': accepted, 'relay_requests': nreq, 'relay_events': len(lines),
